@@ -110,6 +110,41 @@ pub fn run(rng: &mut Rng, n: usize, sink: &mut Sink) {
             if !(*a == *s && *s == *a && *a == s && s == *a && *a == owned && owned == *a && *a == cow && cow == *a) {
                 bad("== against str/&str/String/Cow in both orders");
             }
+            // the conversions and operator glue at the bottom of lib.rs, on every storage shape
+            {
+                use std::str::FromStr;
+                let os: &std::ffi::OsStr = a.as_ref();
+                if String::from(a.clone()) != s || String::from(a) != s || os != std::ffi::OsStr::new(s) {
+                    bad("From<LeanString>/From<&LeanString> for String / AsRef<OsStr>");
+                }
+                match LeanString::from_str(s) {
+                    Ok(p) if p.as_str() == s && p.is_heap_allocated() == (s.len() > 16) => {}
+                    _ => bad("FromStr"),
+                }
+                if (a.clone() + "é-suffix").as_str() != format!("{s}é-suffix") || (a.clone() + "").as_str() != s {
+                    bad("Add<&str>");
+                }
+                let mut st = String::from("p:");
+                st.extend(vec![a.clone(), LeanString::from("|"), a.clone()]);
+                if st != format!("p:{s}|{s}") {
+                    bad("Extend<LeanString> for String");
+                }
+                let joined: LeanString = vec![a.clone(), a.clone(), LeanString::from("·")].into_iter().collect();
+                if joined.as_str() != format!("{s}{s}·") {
+                    bad("FromIterator<LeanString>");
+                }
+                let mut ext = LeanString::from("x");
+                ext.extend(vec![a.clone(), a.clone()]);
+                if ext.as_str() != format!("x{s}{s}") {
+                    bad("Extend<LeanString> for LeanString");
+                }
+                if a.capacity() < a.len() || LeanString::default().as_str() != "" || !LeanString::new().is_empty() {
+                    bad("capacity/Default/new");
+                }
+                if format!("{a:12}|{a:<3}|{a:*^15}|{a:.1}|{a:>6.2}") != format!("{s:12}|{s:<3}|{s:*^15}|{s:.1}|{s:>6.2}") {
+                    bad("Display with width/fill/precision");
+                }
+            }
             // binary, against every representation of a few other texts
             for j in [i, (i + 1) % texts.len(), (i * 7 + 3) % texts.len(), (i + texts.len() / 2) % texts.len()] {
                 let t2 = texts[j].as_str();
